@@ -60,7 +60,7 @@ def setup_worker(tier=None):
 def cases(tier, seed):
   out = []
   q = tier == 'quick'
-  n = 48 if q else 500
+  n = 48 if q else 2500
   for i in range(n):
     r = rng_for('c14', seed, i)
     name = 'MMC_Supervised' if i % 4 == 3 else 'MMC'
